@@ -63,7 +63,7 @@ def helper_case(chk, e):
 
         for i in e["flow"]:
             io, _, _, _, _ = ios(i)
-            io.save(h5_file_name=f"sopht_{i:04d}.h5", time=float(10 * i))
+            io.save(h5_file_name=f"sopht_{i:04d}.h5", time=float(10 * i))  # model time / 1000
         for i in e["rod"]:
             _, rio, _, _, _ = ios(i)
             rio.save(h5_file_name=f"rod_{i:04d}.h5", time=float(10 * i))
@@ -71,7 +71,7 @@ def helper_case(chk, e):
             _, _, fio, _, _ = ios(i)
             fio.save(h5_file_name=f"forcing_grid_{i:04d}.h5", time=float(10 * i))
         os.makedirs("restart_data", exist_ok=True)
-        ea.save_state(sim, "restart_data", np.float64(e["body_time"]))
+        ea.save_state(sim, "restart_data", np.float64(e["body_time"]) / 1000.0)   # model times are scaled by 1000: +1 = relative 1e-6..1e-5
         io, rio, fio, fld, pm = ios(-1)
         want = e["result"]
         import contextlib
@@ -91,8 +91,8 @@ def helper_case(chk, e):
         if want["kind"] == "ok":
             if got[0] != "ok":
                 err = f"helper raised {got} but must return time {want['t']}"
-            elif float(got[1]) != float(want["t"]):
-                err = f"helper returned time {got[1]} but the checkpoint with the largest index has time {want['t']}"
+            elif float(got[1]) != float(want["t"]) / 1000.0:
+                err = f"helper returned time {got[1]} but the checkpoint with the largest index has time {want['t'] / 1000.0}"
             elif not (np.all(fld == max(e["flow"])) and np.all(pm == max(e["flow"]) + 0.5)):
                 err = f"helper loaded fields of checkpoint {fld.flat[0]} instead of the largest index {max(e['flow'])}"
         elif want["kind"] == "FileNotFoundError":
@@ -100,7 +100,7 @@ def helper_case(chk, e):
                 err = f"no checkpoint present: expected the helper's FileNotFoundError, got {got}"
         elif want["kind"] == "ValueError":
             if got[0] == "ok":
-                err = f"flow time {10 * max(e['flow'])} and body time {e['body_time']} disagree but the helper returned {got[1]}"
+                err = f"flow time {10 * max(e['flow'])} and body time {e['body_time'] / 1000.0} disagree but the helper returned {got[1]}"
         else:  # missing companion
             if got[0] == "ok":
                 err = f"companion file of checkpoint {max(e['flow'])} is missing but the helper returned {got[1]}"
